@@ -263,34 +263,6 @@ theorem dget_filter_none (d : Dict) (k : String) (p : String × Val → Bool) (h
       · simp only [dget, lookup_cons_ne _ _ _ _ ha]; exact ih h
       · exact ih h
 
-theorem ddel_of_none (d : Dict) (k : String) (h : dget d k = none) : ddel d k = d := by
-  induction d with
-  | nil => rfl
-  | cons x r ih =>
-    obtain ⟨a, b⟩ := x
-    by_cases ha : k = a
-    · subst ha; simp [dget] at h
-    · simp only [dget, lookup_cons_ne _ _ _ _ ha] at h
-      have hne : a ≠ k := fun e => ha e.symm
-      have ih' := ih h
-      simp only [ddel] at ih' ⊢
-      rw [List.filter_cons]
-      simp only [ne_eq, hne, not_false_eq_true, decide_true, if_true]
-      rw [ih']
-
-theorem ddel_dset (d : Dict) (k : String) (v : Val) : ddel (dset d k v) k = ddel d k := by
-  induction d with
-  | nil => simp [dset, ddel]
-  | cons x r ih =>
-    obtain ⟨a, b⟩ := x
-    by_cases ha : a = k
-    · subst ha; simp [dset, ddel]
-    · simp only [dset, if_neg ha]
-      simp only [ddel] at ih ⊢
-      rw [List.filter_cons, List.filter_cons]
-      simp only [ne_eq, ha, not_false_eq_true, decide_true, if_true]
-      rw [ih]
-
 theorem kindOfType_typeName (k : Kind) : kindOfType k.typeName = some k := by cases k <;> rfl
 
 /-- `Term.build_from_info(term.info) == term` for every term made by a constructor
@@ -393,10 +365,10 @@ theorem parseTerms_length (kw : List (String × List Tree)) (args : List TeArg) 
               subst h
               simp [ih (i + 1) r' hr]
 
-/-- a tensor term (constructed with the default `verbose=False`) rebuilt from its info is the same term,
-*including its by-variable*, provided its marginals round-trip -/
-theorem tensor_roundtrip (args : List TeArg) (by_ : Val) (kw : List (String × Tree)) (d : Dict) (ms : List Atom)
-    (h : mkTensor args by_ (vbool false) kw = .ok (.tensor d ms)) (hrt : ∀ m ∈ ms, RoundTrips m) :
+/-- a tensor term rebuilt from its info is the same term, *including its by-variable and `verbose`*,
+provided its marginals round-trip -/
+theorem tensor_roundtrip (args : List TeArg) (by_ vb : Val) (kw : List (String × Tree)) (d : Dict) (ms : List Atom)
+    (h : mkTensor args by_ vb kw = .ok (.tensor d ms)) (hrt : ∀ m ∈ ms, RoundTrips m) :
     Term.fromInfo (Term.tensor d ms).info = .ok (.tensor d ms) := by
   unfold mkTensor at h
   simp only [bind, Except.bind] at h
@@ -420,7 +392,7 @@ theorem tensor_roundtrip (args : List TeArg) (by_ : Val) (kw : List (String × T
             cases hc : checkParam by_ with
             | error e => simp [hc] at h
             | ok u => rfl
-        have h' : (Except.ok (Term.tensor ([("verbose", vbool false), ("by", by_), ("_name", vstr "tensor_term"),
+        have h' : (Except.ok (Term.tensor ([("verbose", vb), ("by", by_), ("_name", vstr "tensor_term"),
             ("_minimal_name", vstr "te")] ++ coreTail tensorExclude) ms0) : Except Err Term) = .ok (Term.tensor d ms) := by
           by_cases hbn : by_ = vnone
           · simpa [hbn] using h
@@ -434,16 +406,18 @@ theorem tensor_roundtrip (args : List TeArg) (by_ : Val) (kw : List (String × T
         simp only [Except.ok.injEq, Term.tensor.injEq] at h
         obtain ⟨hd, hms⟩ := h
         subst hd; subst hms
-        have hinfo : (Term.tensor ([("verbose", vbool false), ("by", by_), ("_name", vstr "tensor_term"), ("_minimal_name", vstr "te")] ++ coreTail tensorExclude) ms0).info
-            = { d := [("verbose", vbool false), ("by", by_), ("term_type", vstr "tensor_term")], sub := some (ms0.map Atom.info) } := by
+        have hinfo : (Term.tensor ([("verbose", vb), ("by", by_), ("_name", vstr "tensor_term"), ("_minimal_name", vstr "te")] ++ coreTail tensorExclude) ms0).info
+            = { d := [("verbose", vb), ("by", by_), ("term_type", vstr "tensor_term")], sub := some (ms0.map Atom.info) } := by
           simp +decide [Term.info, coreTail, getParams, excludeOf, strList, dget, List.lookup, vstrs, tensorExclude, dset]
         rw [hinfo]
-        have e1 : dget [("verbose", vbool false), ("by", by_), ("term_type", vstr "tensor_term")] "term_type"
+        have e1 : dget [("verbose", vb), ("by", by_), ("term_type", vstr "tensor_term")] "term_type"
             = some (.sc (.str "tensor_term")) := by simp +decide [dget, List.lookup, vstr]
-        have e2 : kwGet [("verbose", vbool false), ("by", by_), ("term_type", vstr "tensor_term")] "by" vnone = by_ := by
+        have e2 : kwGet [("verbose", vb), ("by", by_), ("term_type", vstr "tensor_term")] "by" vnone = by_ := by
+          simp +decide [kwGet, dget, List.lookup]
+        have e3 : kwGet [("verbose", vb), ("by", by_), ("term_type", vstr "tensor_term")] "verbose" (vbool false) = vb := by
           simp +decide [kwGet, dget, List.lookup]
         have hl : ¬ (List.map TeArg.term ms0).length < 2 := by simp; omega
-        simp only [Term.fromInfo, e1, atomsFromInfo_map ms0 hrt, bind, Except.bind, e2]
+        simp only [Term.fromInfo, e1, atomsFromInfo_map ms0 hrt, bind, Except.bind, e2, e3]
         simp only [mkTensor, hl, if_false, nthKw, parseTerms_terms, bind, Except.bind]
         by_cases hbn : by_ = vnone
         · simp [hbn]
